@@ -3,6 +3,7 @@ import ApolloModel.Proofs.ExecValidationValues
 import ApolloModel.Proofs.ExecValidationMerge
 import ApolloModel.Proofs.ExecValidationMerge2
 import ApolloModel.Proofs.ExecValidationCache
+import ApolloModel.Proofs.ExecRules2
 /-
 C17 — Executable validation agrees with the specification.
 
@@ -12,6 +13,41 @@ field-merging algorithm on expanded field sets, `collect_used_fragments` — tie
 run by the streams c17.samevalue / c17.shape / c17.subscription / c17.merge / c17.unusedfrag.
 Spec (Spec/ExecValidation.lean): written from the October-2021 text.  The document-level statement
 "Ok iff no rule is violated" is the differential oracle of the harness (specexec.rs), not a theorem.
+
+INVENTORY — every rule of the oracle harness/src/specexec.rs and its Lean counterpart
+(model = transliteration of apollo's code; `…_iff_spec` = theorem below; stream = correspondence)
+  §5.1.1   ExecutableDefinitions            model Standalone.build (TypeSystemDefinition), stream c17.ops; no theorem
+  §5.2.1.1 OperationNameUniqueness          operation_name_uniqueness_iff_spec            c17.ops
+  §5.2.2.1 LoneAnonymousOperation           lone_anonymous_operation_iff_spec             c17.ops
+  §5.2.3.1 SingleRootField                  subscription_root_iff                         c17.subscription
+  §5.3.1   FieldSelections                  field_selections_iff_spec (meta-fields incl.) c17.fields
+  §5.3.2   FieldSelectionMerging            xing_iff_pairwise, same_value_iff_spec, same_output_type_shape_iff, xing_cache_transparent
+                                                                                          c17.merge/.mergecached/.mergespec/.shape/.samevalue
+  §5.3.3   LeafFieldSelections              field_selections_iff_spec (no sub-selection on a leaf); the converse half
+                                            (MissingSubselection) model + stream only     c17.fields
+  §5.4.1   ArgumentNames                    argument_names_iff_spec                       c17.args
+  §5.4.2   ArgumentUniqueness               argument_uniqueness_iff_spec                  c17.args
+  §5.4.2.1 RequiredArguments                required_arguments_iff_spec                   c17.args
+  §5.5.1.1 FragmentNameUniqueness           fragment_name_uniqueness_iff_spec             c17.frags
+  §5.5.1.2 FragmentSpreadTypeExistence      inline conditions: field_selections_iff_spec; named: model + stream   c17.frags
+  §5.5.1.3 FragmentsOnCompositeTypes        model (Standalone InvalidFragmentTarget) + stream c17.frags; no theorem
+  §5.5.1.4 FragmentsMustBeUsed              used_fragments_iff                            c17.unusedfrag, c17.frags
+  §5.5.2.1 FragmentSpreadTargetDefined      model (Standalone UndefinedFragment) + stream c17.frags; C18 valid_leaf_shape_spreads_defined_partial
+  §5.5.2.2 FragmentSpreadsMustNotFormCycles C21 fragment_cycle_sound (+ C18)              c17.frags
+  §5.5.2.3 FragmentSpreadIsPossible         fragment_spread_possible_iff_spec, possible_types_spec   c17.frags
+  §5.6.1–4 ValuesOfCorrectType, InputObjectFieldNames / FieldUniqueness / RequiredFields
+                                            ORACLE ONLY (const values: builderF's Model/ValueCheck.lean, C14); same_value_* above
+  §5.7.1–3 DirectivesAreDefined / InValidLocations / UniquePerLocation
+                                            C14 directive_applications_rule_iff_spec on the shared `dirDiags` (cited)   c20.schema
+  §5.8.1   VariableUniqueness               variable_uniqueness_iff_spec                  c17.vars
+  §5.8.2   VariablesAreInputTypes           variables_are_input_types_iff_spec            c17.vars
+  §5.8.3   AllVariableUsesDefined           operation_variables_in_scope (what is reported is per operation and genuine),
+                                            undefined_variable_top_level; that the walk meets every use: stream   c17.vars, c17.perop
+  §5.8.4   AllVariablesUsed                 all_variables_used_iff_spec                   c17.vars
+  §5.8.5   AllVariableUsagesAllowed         variable_usage_top_level_iff_spec (C29 usage_allowed_iff is the rule),
+                                            nested_variable_named_type_only (the known finding, explicit)   c17.vars
+  Apollo*  UndefinedRootOperationType, SubscriptionConditionalSelection, four Defer rules
+                                            ORACLE ONLY (c17.ops / c17.subscription compare the first two)
 -/
 namespace Apollo.C17
 open Apollo Apollo.Spec Apollo.ExecVal Apollo.Spec.ExecVal
@@ -259,5 +295,144 @@ theorem fragments_validated_per_operation (frags : List (List Nat)) (ops : List 
 theorem validated_per_operation_not_document_wide :
     validationCount [[]] [[0], [0]] = 2 ∧ (collectUsed [[]] [[0], [0]]).length = 1 := by decide
 
+
+/-! ## (6) the other rule families of §5
+
+Structural rules: the model is `Standalone.validate` (Model/Standalone.lean, C20/C18 — tied to the code
+by c20.schema and now by c17.ops/.frags/.fields/.args/.vars on this property's own documents, through
+`ExecRules.erase`).  Typed rules the structural model leaves opaque: Model/ExecRules.lean. -/
+section Families
+open Apollo.ExecRules Apollo.Standalone.Rules
+
+/-- §5.4.2 -/
+theorem argument_uniqueness_iff_spec (as : List Standalone.Arg) :
+    Standalone.uniqueArgs [] as = [] ↔ (as.map (·.name)).Nodup := argument_uniqueness_iff as
+
+/-- §5.4.1 -/
+theorem argument_names_iff_spec (defs : List Standalone.ArgDef) (as : List Standalone.Arg) :
+    Standalone.undefinedArgs defs as = [] ↔ ∀ a ∈ as, ∃ d ∈ defs, d.name = a.name := argument_names_iff defs as
+
+/-- §5.4.2.1 -/
+theorem required_arguments_iff_spec (defs : List Standalone.ArgDef) (as : List Standalone.Arg) :
+    Standalone.requiredArgs defs as = [] ↔
+      ∀ d ∈ defs, d.required = true → ∃ a, as.find? (fun a => a.name == d.name) = some a ∧ a.value.isNull = false :=
+  required_arguments_iff defs as
+
+/-- §5.8.1 -/
+theorem variable_uniqueness_iff_spec (p : Standalone.Params) (s : Option Standalone.Schema) (vs : List Standalone.VarDef) :
+    .uniqueVariable ∈ Standalone.varDefDiags p s [] vs ↔ ¬ (vs.map (·.name)).Nodup := variable_uniqueness_iff p s vs
+
+/-- §5.8.2 -/
+theorem variables_are_input_types_iff_spec (p : Standalone.Params) (sc : Standalone.Schema) (vs : List Standalone.VarDef) :
+    (.variableInputType ∈ Standalone.varDefDiags p (some sc) [] vs ∨ .undefinedDefinition ∈ Standalone.varDefDiags p (some sc) [] vs) ↔
+      ∃ v ∈ vs, sc.kind v.ty = some .composite ∨ sc.kind v.ty = none :=
+  variables_are_input_types_iff p sc vs []
+
+/-- §5.8.4 (the walk `reach` is reachability through spreads: `used_fragments_iff`) -/
+theorem all_variables_used_iff_spec (doc : Standalone.BuiltDoc) (o : Standalone.Op) :
+    Standalone.unusedVarDiags doc o = [] ↔ ∀ v ∈ o.vars, v.name ∈ Standalone.usedVars doc o := all_variables_used_iff doc o
+
+/-- §5.8.5 at the position of an argument value (the rule itself: C29 `usage_allowed_iff`) -/
+theorem variable_usage_top_level_iff_spec (s : RSchema) (vars : List RVarDef) (d : InDef) (an n : String) (vd : RVarDef)
+    (hv : vars.find? (·.name == n) = some vd) :
+    .disallowedVariableUsage n ∈ argDiags s vars d { name := an, value := .var n } ↔
+      variableUsageAllowed (embed vd.ty) vd.default (embed d.ty) d.hasDefault = false :=
+  variable_usage_top_level_iff s vars d an n vd hv
+
+/-- §5.8.5 inside a list / input-object literal: the known finding `nested-position`, explicit -/
+theorem nested_variable_named_type_only_spec (vars : List RVarDef) (ty : Ty) (kind : TKind) (n : String) (vd : RVarDef)
+    (hv : vars.find? (·.name == n) = some vd) :
+    varValueDiags vars ty kind n = [] ↔ (kind.isInput = true ∧ vd.ty.innerNamedType = ty.innerNamedType) :=
+  nested_variable_named_type_only vars ty kind n vd hv
+
+/-- kernel-evaluated witness of the finding: `query($v: Int) { echo(l: [$v]) }` with `l: [Int!]` — the
+    nullable `$v` is accepted at a non-null item position, where IsVariableUsageAllowed says no -/
+theorem nested_position_witness :
+    varValueDiags [{ name := "v", ty := .named "Int", default := .absent, dirs := [] }] (.nonNullNamed "Int") (.scalar true) "v" = [] ∧
+    variableUsageAllowed (embed (.named "Int")) .absent (embed (.nonNullNamed "Int")) false = false := by decide
+
+/-- §5.8.3, per operation -/
+theorem operation_variables_in_scope_spec (s : RSchema) (doc : RBuilt) (o : ROp) :
+    ∀ d ∈ dirsDiags s o.vars o.dirs ++
+        (walkSels s doc o.vars (enterFrag s doc o.vars doc.frags.length) (s.root o.ty) o.sels []).1,
+      RespectsScope o.vars d := operation_variables_in_scope s doc o
+
+/-- §5.3.1 / §5.3.3 (first half) / inline type conditions, through the whole selection set -/
+theorem field_selections_iff_spec (sc : Standalone.Schema) (sels : Standalone.Sels) (parent : Nat) :
+    (Standalone.buildSels (some sc) parent sels).2 = [] ↔ SelectionsWellTyped sc parent sels :=
+  field_selections_iff sc sels parent
+
+/-- §5.5.2.3 -/
+theorem fragment_spread_possible_iff_spec (s : RSchema) (against tc : String) (hne : tc ≠ against)
+    (h1 : (s.typeInfo? tc).isSome) (h2 : (s.typeInfo? against).isSome) :
+    spreadDiags s against tc = [] ↔ ∃ t, t ∈ s.possibleTypes against ∧ t ∈ s.possibleTypes tc :=
+  fragment_spread_possible_iff s against tc hne h1 h2
+
+/-- §5.2.1.1 -/
+theorem operation_name_uniqueness_iff_spec (s : Option Standalone.Schema) (ast : Standalone.Ast) (h : AllOpsBuild s ast) :
+    .operationNameCollision ∈ (Standalone.build s ast).diags ↔ ¬ OperationNamesUnique ast :=
+  operation_name_uniqueness_iff s ast h
+
+/-- §5.2.2.1 -/
+theorem lone_anonymous_operation_iff_spec (s : Option Standalone.Schema) (ast : Standalone.Ast) (h : AllOpsBuild s ast) :
+    .ambiguousAnonymousOperation ∈ (Standalone.build s ast).diags ↔ ¬ LoneAnonymousOperation ast :=
+  lone_anonymous_operation_iff s ast h
+
+/-- §5.5.1.1 -/
+theorem fragment_name_uniqueness_iff_spec (s : Option Standalone.Schema) (ast : Standalone.Ast) (h : AllFragsBuild s ast) :
+    .fragmentNameCollision ∈ (Standalone.build s ast).diags ↔ ¬ FragmentNamesUnique ast :=
+  fragment_name_uniqueness_iff s ast h
+
+/-- THE COVERED RULES, TOGETHER (partial: see the inventory at the top for what stays outside — values
+    §5.6, the directive rules (C14), fragment cycles (C21), merging and subscriptions (sections 1–5),
+    FragmentsOnCompositeTypes / FragmentSpreadTargetDefined / MissingSubselection (model + stream)).
+    For a document all of whose operations have a root type and all of whose fragment conditions are
+    defined: the document-building phase reports no name collision / ambiguity / selection error and
+    each operation's variable definitions and usages report nothing, exactly when the corresponding
+    specification rules hold. -/
+theorem executable_verdict_iff_spec_partial (p : Standalone.Params) (sc : Standalone.Schema) (ast : Standalone.Ast)
+    (hops : AllOpsBuild (some sc) ast) (hfrags : AllFragsBuild (some sc) ast) :
+    ((.operationNameCollision ∉ (Standalone.build (some sc) ast).diags ∧
+      .ambiguousAnonymousOperation ∉ (Standalone.build (some sc) ast).diags ∧
+      .fragmentNameCollision ∉ (Standalone.build (some sc) ast).diags) ↔
+        (OperationNamesUnique ast ∧ LoneAnonymousOperation ast ∧ FragmentNamesUnique ast)) ∧
+    (∀ parent sels, (Standalone.buildSels (some sc) parent sels).2 = [] ↔ SelectionsWellTyped sc parent sels) ∧
+    (∀ vs : List Standalone.VarDef,
+      (.uniqueVariable ∉ Standalone.varDefDiags p (some sc) [] vs ∧ .variableInputType ∉ Standalone.varDefDiags p (some sc) [] vs ∧
+        .undefinedDefinition ∉ Standalone.varDefDiags p (some sc) [] vs) ↔
+      ((vs.map (·.name)).Nodup ∧ ∀ v ∈ vs, sc.kind v.ty ≠ some .composite ∧ sc.kind v.ty ≠ none)) ∧
+    (∀ doc o, Standalone.unusedVarDiags doc o = [] ↔ ∀ v ∈ o.vars, v.name ∈ Standalone.usedVars doc o) ∧
+    (∀ defs as, (Standalone.uniqueArgs [] as = [] ∧ Standalone.undefinedArgs defs as = [] ∧ Standalone.requiredArgs defs as = []) ↔
+      ((as.map (·.name)).Nodup ∧ (∀ a ∈ as, ∃ d ∈ defs, d.name = a.name) ∧
+        ∀ d ∈ defs, d.required = true → ∃ a, as.find? (fun a => a.name == d.name) = some a ∧ a.value.isNull = false)) := by
+  refine ⟨?_, fun parent sels => field_selections_iff sc sels parent, ?_, all_variables_used_iff, ?_⟩
+  · rw [operation_name_uniqueness_iff _ _ hops, lone_anonymous_operation_iff _ _ hops, fragment_name_uniqueness_iff _ _ hfrags]
+    simp only [Classical.not_not]
+  · intro vs
+    have h1 := variable_uniqueness_iff p (some sc) vs
+    have h2 := variables_are_input_types_iff p sc vs []
+    constructor
+    · rintro ⟨a, b, c⟩
+      refine ⟨Classical.not_not.mp (fun hn => a (h1.mpr hn)), ?_⟩
+      intro v hv
+      constructor
+      · intro hk; rcases h2.mpr ⟨v, hv, Or.inl hk⟩ with h | h
+        · exact b h
+        · exact c h
+      · intro hk; rcases h2.mpr ⟨v, hv, Or.inr hk⟩ with h | h
+        · exact b h
+        · exact c h
+    · rintro ⟨a, b⟩
+      refine ⟨fun h => (h1.mp h) a, ?_, ?_⟩
+      · intro h; obtain ⟨v, hv, hk⟩ := h2.mp (Or.inl h); rcases hk with hk | hk
+        · exact (b v hv).1 hk
+        · exact (b v hv).2 hk
+      · intro h; obtain ⟨v, hv, hk⟩ := h2.mp (Or.inr h); rcases hk with hk | hk
+        · exact (b v hv).1 hk
+        · exact (b v hv).2 hk
+  · intro defs as
+    rw [argument_uniqueness_iff, argument_names_iff, required_arguments_iff]
+
+end Families
 
 end Apollo.C17
